@@ -105,18 +105,26 @@ theorem depositAndDraw_accepted_ratio (s s' : State) (p : Product) (e : Env) (fr
 
 /-- **Debt floor**: after every history every open vault's principal is at least its product's debt floor. -/
 theorem floor_kept (cfg : Nat → Option Product) (hc : CfgOk cfg) (h : History) (hu : UsersOk h) :
-    ∀ v ∈ (runAll cfg State.init h).vaults, ∀ p, cfg v.product = some p → p.debtFloor ≤ v.amountOut :=
-  (inv_always cfg hc h hu State.init (init_inv cfg hc)).2.2.2.2.2.1
+    ∀ v ∈ (runAll cfg State.init h).vaults, ∀ p, cfg v.product = some p → p.debtFloor ≤ v.amountOut := by
+  obtain ⟨G', h', _, _⟩ := invG_always cfg hc h hu Gaps.zero State.init ((invG_zero cfg _).mpr (init_inv cfg hc)) goodGaps_zero
+  exact h'.2.2.2.2.2.1
 
-/-- **Debt ceiling**: after every history the principal outstanding across a product (open vaults, stable-mint
-vaults and vaults awaiting auction settlement: `totals_eq`) is at most its debt ceiling. -/
+/-- **Debt ceiling**: after every history the published principal of a product is at most its debt ceiling — the
+quantity every mint is checked against; in histories without auction settlement it equals the principal recorded on
+open, stable-mint and awaiting-auction vaults (`totals_eq`), so that sum is bounded too. (After a settlement the
+published total is below the recorded sum by the settled vaults' interest and closing fees — finding D13 — so later
+mints can push the recorded sum above the ceiling by that amount: not excluded by this theorem.) -/
 theorem ceiling_kept (cfg : Nat → Option Product) (hc : CfgOk cfg) (h : History) (hu : UsersOk h) (prod : Nat)
     (p : Product) (hp : cfg prod = some p) :
-    mintedOfProduct (runAll cfg State.init h) prod ≤ p.debtCeiling := by
-  have hinv := inv_always cfg hc h hu State.init (init_inv cfg hc)
-  have := hinv.2.2.2.2.2.2 prod p hp
-  rw [(hinv.2.2.2.1 prod).2] at this
-  exact this
+    (runAll cfg State.init h).minted prod ≤ p.debtCeiling ∧
+    (NoSettle h → mintedOfProduct (runAll cfg State.init h) prod ≤ p.debtCeiling) := by
+  obtain ⟨G', h', _, e⟩ := invG_always cfg hc h hu Gaps.zero State.init ((invG_zero cfg _).mpr (init_inv cfg hc)) goodGaps_zero
+  refine ⟨h'.2.2.2.2.2.2 prod p hp, fun hn => ?_⟩
+  rw [e hn] at h'
+  have := h'.2.2.2.2.2.2 prod p hp
+  have h2 := (h'.2.2.2.1 prod).2
+  simp only [Gaps.zero] at h2
+  omega
 
 theorem calcCR_none_of_inactive (p : Product) (e : Env) (a b : Int)
     (h : e.priceIn = none ∨ (p.outOracle = true ∧ e.priceOut = none)) : calcCR p e a b = none := by
